@@ -369,6 +369,59 @@ func runC02(p *load.Program, r *core.Report) {
 	c02SleepRecheck(a, r)
 	c02Fallback(a, r, pushes)
 	c02SendAfter(a, r)
+	c02InitKick(a, r)
+}
+
+// c02InitKick: D6 — messages accepted while the process was still initialising (state Init: the
+// senders' wake-ups were no-ops) are picked up by a wake-up after the state became Sleep. From the
+// initial store of Sleep every path to a return either wakes the process or has seen every queue empty.
+func c02InitKick(a *Anchors, r *core.Report) {
+	rule := "C02.D6 init-kick"
+	r.Floor(rule, 4)
+	ws := procWordSpec(a)
+	for _, op := range stateOps(a.P, ws.owner, ws.field) {
+		if !(op.Kind == "plainstore" || op.Kind == "store") || !op.HasNew || op.New != ws.sleep {
+			continue
+		}
+		f := op.Fn
+		fn := fname(f)
+		base := op.Base
+		isWake := func(in ssa.Instruction) bool {
+			cc := callCommon(in)
+			if cc == nil || staticCallee(cc) != a.ProcWake || len(cc.Args) == 0 {
+				return false
+			}
+			return canon(cc.Args[0]) == base
+		}
+		for _, q := range a.MailboxQs {
+			key := "C02.D6|" + fn + "|" + q
+			inst := "after the freshly initialised process is switched to Sleep, a message queued in " + q + " during init is picked up without later traffic"
+			cut := map[Edge]bool{}
+			eachInstr(f, func(in ssa.Instruction) {
+				cc := callCommon(in)
+				if cc == nil || !cc.IsInvoke() || cc.Method.Name() != "Item" {
+					return
+				}
+				ls := queueLeaves(cc.Value)
+				if len(ls) != 1 || ls[0].Owner != a.MailboxT || len(ls[0].Path) == 0 || ls[0].Path[len(ls[0].Path)-1] != q || ls[0].Base != base {
+					return
+				}
+				if v, ok := in.(ssa.Value); ok {
+					e, _, _ := nilEdges(v)
+					for _, x := range e {
+						cut[x] = true
+					}
+				}
+			})
+			r.Paths++
+			bad := reachAvoidEdges([]Point{after(op.In)}, cut, isWake, isReturn)
+			if bad != nil {
+				r.Bad(rule, key, fn, a.P.Pos(op.In.Pos()), inst, "the return at "+a.P.Pos(bad.Pos())+" is reachable without waking the process and without having seen "+q+" empty: a send that succeeded during init stays in the mailbox of a sleeping process")
+			} else {
+				r.OK(rule, key, fn, a.P.Pos(op.In.Pos()), inst, "every path wakes the process (or saw the queue empty)")
+			}
+		}
+	}
 }
 
 func uniq(s []string) []string {
